@@ -1516,7 +1516,7 @@ func randomRun(rq RandReq) (res Result) {
 		if rq.Bias == "grow" {
 			tIns, tUpd, tDel = 76, 83, 88 // mostly inserts, but every kind of statement still occurs
 		}
-		if i == rq.N/3 && len(queue) == 0 {
+		if i == rq.N/3 && len(queue) == 0 && rq.Cache == 0 { // (under a small cache a CREATE TABLE may not fit: C16's precondition)
 			// a table whose name begins with the name of another one (t1 / t10): names are compared whole
 			queue = append(queue, Step{A: "create", T: "t10"}, Step{A: "insert", T: "t10", Rows: []int{val(), val()}}, Step{A: "insert", T: "t1", Rows: []int{val()}})
 			tables = append(tables, "t10")
